@@ -49,8 +49,12 @@ if __name__ == "__main__":
     rc = main()
     sys.stdout.flush()
     sys.stderr.flush()
-    import threading
+    # joblib/loky workers (n_jobs > 1 runs) and threads left behind by the code under test must not delay or hang the exit
+    try:
+        if "joblib" in sys.modules:
+            from joblib.externals.loky import get_reusable_executor
 
-    if any(t is not threading.main_thread() and t.is_alive() and not t.daemon for t in threading.enumerate()):
-        os._exit(rc)  # a thread left behind by the code under test must not hang the check
-    sys.exit(rc)
+            get_reusable_executor().shutdown(wait=False, kill_workers=True)
+    except Exception:  # noqa: BLE001
+        pass
+    os._exit(rc)
